@@ -17,6 +17,8 @@ mod inputs;
 
 #[path = "/repo/harper-ls/src/git_commit_parser.rs"]
 mod git_commit_parser;
+#[path = "/repo/harper-ls/src/config.rs"]
+mod config;
 
 fn main() {
     let argv: Vec<String> = std::env::args().collect();
@@ -36,6 +38,7 @@ fn main() {
         "c19" => c19::main(&a),
         "c15" => c15::main(&a),
         "c05" => lg::c05(&a),
+        "c11" => lg::c11(&a),
         other => {
             eprintln!("unknown subcommand {other}");
             std::process::exit(2);
